@@ -247,3 +247,187 @@ Proof.
   - intros (_ & _ & H & _). destruct (H 0 ltac:(vm_compute; split; congruence)) as (i & j & ed & Hp & _ & _ & _ & st & ln & Hc & Hj & _).
     vm_compute in Hp. inv_ok. vm_compute in Hc. inv_ok. lia.
 Qed.
+
+(** * LaxPolygon *)
+Definition vlens (loops : list (list vertex)) : list Z := map len loops.
+
+Lemma vlens_nonneg loops : nonneg (vlens loops).
+Proof. induction loops; constructor; [apply len_nonneg|assumption]. Qed.
+
+Lemma concat_len (loops : list (list vertex)) : len (concat loops) = total (vlens loops).
+Proof.
+  induction loops as [|l t IH]; [reflexivity|].
+  cbn [concat vlens map]. fold (vlens t). rewrite total_cons, <- IH.
+  unfold len. rewrite app_length. lia.
+Qed.
+
+Lemma lax_search_spec lens acc k e : nonneg lens -> acc <= e < acc + total lens ->
+  lax_search (psums lens acc) k e = let '(i, _) := locate lens (e - acc) in Ok (k + 1 + Z.of_nat i).
+Proof.
+  intros H. revert acc k e. induction H as [|x t Hx Ht IH]; intros acc k e He.
+  - unfold total in He; cbn in He. lia.
+  - rewrite total_cons in He.
+    change (psums (x :: t) acc) with (acc :: psums t (acc + x)).
+    cbn [lax_search locate].
+    destruct (acc <=? e) eqn:E0; [|apply Z.leb_gt in E0; lia].
+    destruct (e - acc <? x) eqn:E.
+    + apply Z.ltb_lt in E.
+      assert (psums t (acc + x) = (acc + x) :: tl (psums t (acc + x))) as -> by (destruct t; reflexivity).
+      cbn [lax_search]. destruct (acc + x <=? e) eqn:E1; [apply Z.leb_le in E1; lia|].
+      f_equal. lia.
+    + apply Z.ltb_ge in E. rewrite IH by lia.
+      replace (e - (acc + x)) with (e - acc - x) by lia.
+      destruct (locate t (e - acc - x)) as [i j]. f_equal. lia.
+Qed.
+
+Lemma mk_edge_ok (v : list vertex) a b : 0 <= a < len v -> 0 <= b < len v ->
+  exists ed, mk_edge (idx v a) (idx v b) = Ok ed.
+Proof.
+  intros Ha Hb. rewrite (idx_ok v a 0 Ha), (idx_ok v b 0 Hb). eexists; reflexivity.
+Qed.
+
+(** one loop: the LaxLoop case *)
+Lemma lax_polygon_contract_one (l : list vertex) : contract (lax_polygon_ops (lax_polygon_from_points [l])).
+Proof.
+  pose proof (len_nonneg l) as Hn.
+  unfold contract, lax_polygon_ops, lax_polygon_ops_with, lax_polygon_from_points; ops_cbn.
+  unfold lax_numVertices, lax_Edge, lax_Chain, lax_ChainEdge, lax_ChainPosition, lax_numLoopVertices, lax_numVertices.
+  cbn [lx_numLoops lx_vertices lx_numVerts lx_cumulativeVertices]. cbn [Z.eqb Z.leb Z.compare Pos.compare Pos.compare_cont bind Pos.eqb].
+  assert (forall e, 0 <= e < len l ->
+     mk_edge (idx l e) (idx l (if negb (e + 1 =? len l) then e + 1 else 0)) =
+     mk_edge (idx l e) (idx l (if e + 1 =? len l then 0 else e + 1))) as Hsame.
+  { intros e He. destruct (e + 1 =? len l); reflexivity. }
+  assert (forall e, 0 <= e < len l -> exists ed,
+     mk_edge (idx l e) (idx l (if e + 1 =? len l then 0 else e + 1)) = Ok ed) as Hok.
+  { intros e He. apply mk_edge_ok; [lia|]. zb; lia. }
+  split; [lia|]. split; [lia|]. split; [|split; [|split]].
+  - intros e He. destruct (Hok e He) as (ed & Hed). exists 0, e, ed.
+    rewrite Hsame by lia. repeat split; try assumption; try lia.
+    exists 0, (len l). repeat split; lia.
+  - intros i Hi. exists 0, (len l). repeat split; try lia.
+    intros j Hj. rewrite Z.add_0_l. destruct (Hok j Hj) as (ed & Hed). exists ed.
+    rewrite Hsame by lia. repeat split; try assumption. f_equal. f_equal. lia.
+  - lia.
+  - intros i st ln Hi Hc. inv_ok. repeat split; lia.
+Qed.
+
+(** two or more loops: cumulativeVertices *)
+Lemma lax_polygon_contract_many (loops : list (list vertex)) : (2 <= length loops)%nat ->
+  contract (lax_polygon_ops (mkLaxPolygon (len loops) (concat loops) 0 (psums (vlens loops) 0))).
+Proof.
+  intros H2.
+  set (lens := vlens loops).
+  pose proof (vlens_nonneg loops) as Hnn. fold lens in Hnn.
+  assert (length lens = length loops) as Hlen by apply map_length.
+  assert (len lens = len loops) as Hlen' by (unfold len; lia).
+  pose proof (concat_len loops) as Hcl. fold lens in Hcl.
+  set (V := concat loops) in *.
+  set (cum := psums lens 0).
+  assert (forall i, (i <= length lens)%nat -> idx cum (Z.of_nat i) = Ok (pre lens i)) as Hcum.
+  { intros i Hi. subst cum. rewrite psums_idx by (unfold len; lia). rewrite Nat2Z.id. reflexivity. }
+  assert ((len loops =? 1) = false) as Hn1 by (apply Z.eqb_neq; unfold len; lia).
+  assert ((len loops <=? 1) = false) as Hn1' by (apply Z.leb_gt; unfold len; lia).
+  assert (forall e, 0 <= e -> lax_search (tl cum) 1 e = lax_search cum 0 e) as Htl.
+  { intros e He. subst cum. destruct lens; cbn [psums tl lax_search];
+      (destruct (0 <=? e) eqn:E; [reflexivity|apply Z.leb_gt in E; lia]). }
+  assert (forall e, 0 <= e < total lens ->
+            lax_search cum 0 e = let '(i, _) := locate lens e in Ok (1 + Z.of_nat i)) as Hsearch.
+  { intros e He. subst cum. rewrite lax_search_spec by (assumption || lia).
+    rewrite Z.sub_0_r. destruct (locate lens e). reflexivity. }
+  (* the accessors at a located position *)
+  assert (forall i j, (i < length lens)%nat -> 0 <= j < nth i lens 0 ->
+     exists ed,
+       lax_Edge (mkLaxPolygon (len loops) V 0 cum) (pre lens i + j) = Ok ed /\
+       lax_ChainEdge (mkLaxPolygon (len loops) V 0 cum) (Z.of_nat i) j = Ok ed /\
+       lax_ChainPosition (mkLaxPolygon (len loops) V 0 cum) (pre lens i + j) = Ok (Z.of_nat i, j) /\
+       lax_Chain (mkLaxPolygon (len loops) V 0 cum) (Z.of_nat i) = Ok (pre lens i, nth i lens 0)) as Hat.
+  { intros i j Hi Hj.
+    pose proof (pre_nonneg lens i Hnn) as Hp0.
+    pose proof (pre_S_le_total lens i Hnn Hi) as HpS.
+    pose proof (pre_S lens i Hi) as HS.
+    assert (0 <= pre lens i + j < total lens) as He by lia.
+    pose proof (Hsearch _ He) as Hs. rewrite (locate_uniq lens i j Hnn Hi Hj) in Hs.
+    set (k := if negb (j + 1 =? nth i lens 0) then j + 1 else 0).
+    assert (0 <= k < nth i lens 0) as Hk by (subst k; zb; cbn; lia).
+    destruct (mk_edge_ok V (pre lens i + j) (pre lens i + k)) as (ed & Hed); [lia|lia|].
+    exists ed.
+    unfold lax_Edge, lax_ChainEdge, lax_ChainPosition, lax_Chain, lax_numLoopVertices.
+    cbn [lx_numLoops lx_vertices lx_numVerts lx_cumulativeVertices]. rewrite Hn1.
+    rewrite Htl by lia. rewrite Hs. cbn [bind].
+    replace (1 + Z.of_nat i) with (Z.of_nat (S i)) by lia.
+    replace (Z.of_nat i + 1) with (Z.of_nat (S i)) by lia.
+    rewrite (Hcum (S i)) by lia. cbn [bind].
+    replace (Z.of_nat (S i) - 1) with (Z.of_nat i) by lia.
+    rewrite (Hcum i) by lia. cbn [bind].
+    rewrite HS. replace (pre lens i + nth i lens 0 - pre lens i) with (nth i lens 0) by lia.
+    fold k.
+    split; [|split; [exact Hed|split; [f_equal; f_equal; lia|reflexivity]]].
+    rewrite <- Hed.
+    assert ((if pre lens i + j + 1 =? pre lens i + nth i lens 0
+             then Ok (pre lens i) else Ok (pre lens i + j + 1)) = Ok (pre lens i + k)) as ->.
+    { subst k. destruct (j + 1 =? nth i lens 0) eqn:E2; cbn [negb].
+      - apply Z.eqb_eq in E2. destruct (pre lens i + j + 1 =? pre lens i + nth i lens 0) eqn:E1;
+          [f_equal; lia|apply Z.eqb_neq in E1; lia].
+      - apply Z.eqb_neq in E2. destruct (pre lens i + j + 1 =? pre lens i + nth i lens 0) eqn:E1;
+          [apply Z.eqb_eq in E1; lia|f_equal; lia]. }
+    reflexivity. }
+  unfold contract, lax_polygon_ops, lax_polygon_ops_with; ops_cbn.
+  assert (lax_numVertices (mkLaxPolygon (len loops) V 0 cum) = Ok (total lens)) as Hnv.
+  { unfold lax_numVertices. cbn [lx_numLoops lx_numVerts lx_cumulativeVertices]. rewrite Hn1'.
+    replace (len loops) with (Z.of_nat (length lens)) by (unfold len; lia).
+    rewrite Hcum by lia. reflexivity. }
+  rewrite Hnv. cbn [lx_numLoops].
+  split; [apply total_nonneg; assumption|]. split; [apply len_nonneg|]. split; [|split; [|split]].
+  - intros e He. pose proof (locate_spec lens e Hnn He) as Hloc.
+    destruct (locate lens e) as [i j]. destruct Hloc as (Hi & Hj & Hsum). subst e.
+    destruct (Hat i j Hi Hj) as (ed & H1 & H2' & H3 & H4).
+    exists (Z.of_nat i), j, ed. repeat split; try assumption; try (unfold len; lia).
+    exists (pre lens i), (nth i lens 0). repeat split; try assumption; lia.
+  - intros iz Hiz. unfold len in Hiz.
+    assert (exists i, iz = Z.of_nat i) as (i & ->) by (exists (Z.to_nat iz); lia).
+    assert (i < length lens)%nat as Hi by lia.
+    exists (pre lens i), (nth i lens 0).
+    split.
+    { (* Chain does not depend on an offset *)
+      unfold lax_Chain. cbn [lx_numLoops lx_cumulativeVertices]. rewrite Hn1.
+      replace (Z.of_nat i + 1) with (Z.of_nat (S i)) by lia.
+      rewrite (Hcum i), (Hcum (S i)) by lia. cbn [bind]. rewrite pre_S by lia. f_equal. f_equal. lia. }
+    split; [apply pre_nonneg; assumption|]. split; [apply nth_nonneg; assumption|].
+    split; [apply pre_S_le_total; assumption|].
+    intros j Hj. destruct (Hat i j Hi Hj) as (ed & H1 & H2' & H3 & H4). exists ed. auto.
+  - intros H0. unfold len in H0. lia.
+  - intros iz st ln Hiz Hc. unfold len in Hiz.
+    assert (exists i, iz = Z.of_nat i) as (i & ->) by (exists (Z.to_nat iz); lia).
+    assert (i < length lens)%nat as Hi by lia.
+    assert (forall i, (i < length lens)%nat ->
+              lax_Chain (mkLaxPolygon (len loops) V 0 cum) (Z.of_nat i) = Ok (pre lens i, nth i lens 0)) as Hchain.
+    { intros i' Hi'. unfold lax_Chain. cbn [lx_numLoops lx_cumulativeVertices]. rewrite Hn1.
+      replace (Z.of_nat i' + 1) with (Z.of_nat (S i')) by lia.
+      rewrite (Hcum i'), (Hcum (S i')) by lia. cbn [bind]. rewrite pre_S by lia. f_equal. f_equal. lia. }
+    rewrite Hchain in Hc by assumption. inv_ok.
+    split; [intros H0; assert (i = O) by lia; subst i; destruct lens; reflexivity|].
+    split.
+    + intros Hl. rewrite <- pre_S by lia. unfold total. f_equal. unfold len in Hl. lia.
+    + intros Hl. unfold len in Hl. exists (nth (S i) lens 0).
+      replace (Z.of_nat i + 1) with (Z.of_nat (S i)) by lia.
+      rewrite Hchain by lia. rewrite pre_S by lia. reflexivity.
+Qed.
+
+Theorem lax_polygon_contract : forall loops, contract (lax_polygon_ops (lax_polygon_from_points loops)).
+Proof.
+  intros [|l [|l2 t]].
+  - (* no loops: no edges, no chains *)
+    unfold contract, lax_polygon_ops, lax_polygon_ops_with, lax_polygon_from_points; ops_cbn. cbn.
+    repeat split; intros; lia.
+  - apply lax_polygon_contract_one.
+  - unfold lax_polygon_from_points. apply lax_polygon_contract_many. cbn. lia.
+Qed.
+
+(** the variant before fix 6634f3a: two loops of 2 and 3 vertices, edge 2 (first edge of loop 1) *)
+Theorem lax_polygon_contract_old_refuted :
+  exists loops, ~ contract (lax_polygon_ops_old (lax_polygon_from_points loops)).
+Proof.
+  exists [[1; 2]; [3; 4; 5]]. intros (_ & _ & H & _).
+  destruct (H 2 ltac:(vm_compute; split; congruence)) as (i & j & ed & Hp & He & Hce & _).
+  vm_compute in Hp. inv_ok. vm_compute in He, Hce. congruence.
+Qed.
